@@ -131,6 +131,9 @@ fn c05_alphabet(capacity: usize) -> Vec<Op> {
         Op::EvictAll,
         Op::Fetch { k: 2, w: 1, hold: false },
         Op::Fetch { k: 3, w: 2, hold: false },
+        // filter-rejected (disk-only) inserts over keys that may be resident with another weight
+        ins_reject(1, 2, false),
+        ins_reject(2, 1, false),
     ]
 }
 
@@ -382,6 +385,36 @@ fn c14_jobs(tier: Tier) -> Vec<SeqJob> {
             }
         }
     }
+    // S3-FIFO configured with a promotion threshold above what the 2-bit frequency counter can reach (the
+    // implementation caps it at the counter's maximum of 3): entries looked up three times must still be promoted.
+    {
+        let algo = Algo::S3Fifo { small: 0.5, ghost: 1.0, threshold: 5 };
+        let caps: Vec<usize> = if tier == Tier::Quick { vec![4] } else { vec![3, 4, 6] };
+        for capacity in caps {
+            let universe = vec![1, 2, 3, 4, 5, 6];
+            let mut prologue: Vec<Op> = (1..=capacity as u64).map(|k| ins(k, 1)).collect();
+            for _ in 0..3 {
+                prologue.push(get(1));
+                prologue.push(get(2));
+            }
+            prologue.push(get(3));
+            jobs.push(SeqJob {
+                property: "C14",
+                owned: vec!["A.", "P.", "X."],
+                cfg: cfg(algo, capacity, 1, false, true),
+                universe: universe.clone(),
+                prologue,
+                alphabet: vec![ins(5, 1), ins(6, 1), ins(4, 1), ins(3, 1), get(1), get(3), get(5), rm(2)],
+                depth1: if tier == Tier::Quick { 4 } else { 5 },
+                depth2: 0,
+                max_states: 0,
+                resize_any_depth: 0,
+                resize_last_depth: 0,
+                resize2_depth: 0,
+                epilogue: false,
+            });
+        }
+    }
     // States reached *through* a resize (capacity-derived parameters of LRU / S3-FIFO / w-TinyLFU are
     // recomputed there): the cache is filled, resized down or up, and then every sequence over a reduced
     // alphabet follows. One resize per execution (see the budget note on `SeqJob`).
@@ -445,6 +478,8 @@ fn c18_alphabet(capacity: usize) -> Vec<Op> {
         Op::Resize { c: capacity + 1 },
         Op::Fetch { k: 1, w: 1, hold: true },
         Op::Fetch { k: 3, w: 1, hold: false },
+        Op::FetchWaiterGone { k: 3, w: 1, hold: false },
+        Op::FetchWaiterGone { k: 1, w: 1, hold: true },
     ]
 }
 
